@@ -1,6 +1,7 @@
 import PeptVerif.Model.Proto
 import PeptVerif.Model.Annotation
 import PeptVerif.Model.Combinatoric
+import PeptVerif.Model.CombinatoricText
 /-! driver for C19: combinatorial expansions of an annotation, `split`, and the bare itertools models -/
 open Proto Pept Pept.Wire
 
@@ -21,12 +22,24 @@ def iter (f : Nat → List Int → List (List Int)) (k l : String) : String :=
   | some k, some l => showLists (f k l)
   | _, _ => "bad-op"
 
+def strOp (f : List Char → Option Nat → Except Err (List (List Char))) (s size : String) : String :=
+  match unesc s, parseSize? size with
+  | some s, some k =>
+    match f s k with
+    | .ok l => "S" ++ "~".intercalate (l.map esc)
+    | .error e => "ERR:" ++ e.name
+  | _, _ => "bad-op"
+
 def step (line : String) : String :=
   match splitTab line with
   | ["perm", a, k] => expand permutations a k
   | ["prod", a, k] => expand product a k
   | ["comb", a, k] => expand combinations a k
   | ["cwr", a, k] => expand combinationsWithReplacement a k
+  | ["s_perm", s, k] => strOp permutationsStr s k
+  | ["s_prod", s, k] => strOp productStr s k
+  | ["s_comb", s, k] => strOp combinationsStr s k
+  | ["s_cwr", s, k] => strOp combinationsWithReplacementStr s k
   | ["split", a] =>
     match parseAnnotation? a with
     | some a => if a.intervals.isSome then "ERR:domain" else showAnns (split a)
